@@ -84,7 +84,7 @@ class Report:
     # -- finish -------------------------------------------------------------
     def finish(self, broken=None):
         wall = time.time() - self.t0
-        if broken is None:
+        if broken is None and not self.violations:
             for rid, r in self.rules.items():
                 if r["obligations"] < r["min"]:
                     broken = "rule %s matched %d instances, fewer than the %d confirmed by hand " \
